@@ -5,6 +5,7 @@
 From Coq Require Import QArith Qabs Qreduction Lqa List Bool.
 Import ListNotations.
 Open Scope Q_scope.
+Arguments Qred : simpl never.
 
 (* ------------------------------------------------------------------ *)
 (* distributions (Pr(I), Pr(X), Pr(Y), Pr(Z))                          *)
@@ -48,8 +49,10 @@ Definition vsub (u v : vec3) : vec3 := let '(a, b, c) := u in let '(x, y, z) := 
 Definition vscale (s : Q) (v : vec3) : vec3 := let '(x, y, z) := v in (s * x, s * y, s * z).
 Definition vdot (u v : vec3) : Q := let '(a, b, c) := u in let '(x, y, z) := v in a * x + b * y + c * z.
 Definition veq (u v : vec3) : Prop := let '(a, b, c) := u in let '(x, y, z) := v in a == x /\ b == y /\ c == z.
+(* Qred (reduction to lowest terms, Qred q == q) keeps the numerals small; it has no effect on values *)
+Definition vec_red (v : vec3) : vec3 := let '(x, y, z) := v in (Qred x, Qred y, Qred z).
 Definition norm1 (v : vec3) : Q := let '(x, y, z) := v in Qabs x + Qabs y + Qabs z.
-Definition normalize (v : vec3) : vec3 := let n := norm1 v in let '(x, y, z) := v in (x / n, y / n, z / n).
+Definition normalize (v : vec3) : vec3 := let n := norm1 v in let '(x, y, z) := v in vec_red (x / n, y / n, z / n).
 Definition vX : vec3 := (1, 0, 0).
 Definition vY : vec3 := (0, 1, 0).
 Definition vZ : vec3 := (0, 0, 1).
@@ -58,8 +61,8 @@ Definition centre : vec3 := (1 # 3, 1 # 3, 1 # 3).
 Definition dist2 (u v : vec3) : Q := let w := vsub u v in vdot w w.   (* squared Euclidean distance *)
 Definition line_plane (pn pp ld lp : vec3) : vec3 :=
   let w := vsub lp pp in
-  let si := - vdot pn w / vdot pn ld in
-  vadd (vadd w (vscale si ld)) pp.
+  let si := Qred (- vdot pn w / vdot pn ld) in
+  vec_red (vadd (vadd w (vscale si ld)) pp).
 Definition neg_lim_try (L p1 p2 p3 : vec3) : option vec3 :=
   if Qeq_bool (vdot L p1) 0 then
     let pN := if Qle_bool (dist2 p2 L) (dist2 p3 L) then p2 else p3 in
@@ -78,7 +81,7 @@ Definition ratio (L : vec3) (pos : Q) : option vec3 :=
   let lim := if Qle_bool 0 pos then Some L else neg_lim L in
   let a := Qabs pos in
   match lim with
-  | Some l => Some (vadd (vscale a l) (vscale (1 - a) centre))
+  | Some l => Some (vec_red (vadd (vscale a l) (vscale (1 - a) centre)))
   | None => None
   end.
 Definition slice (lim : vec3) (pos p : Q) : option dist :=
@@ -306,12 +309,14 @@ Lemma on_boundary_veq u v : veq u v -> on_boundary u -> on_boundary v.
 Proof. destruct u as [[a b] c], v as [[x y] z]. unfold on_boundary, on_simplex, has_zero. cbn. intros (A & B & C) ((P1 & P2 & P3 & P4) & Zr).
   repeat split; lra. Qed.
 
+Lemma vec_red_veq v : veq (vec_red v) v.
+Proof. destruct v as [[x y] z]. cbn. repeat split; apply Qred_correct. Qed.
 Lemma normalize_id x y z : 0 <= x -> 0 <= y -> 0 <= z -> x + y + z == 1 -> veq (normalize (x, y, z)) (x, y, z).
 Proof.
   intros Hx Hy Hz Hs. unfold normalize, norm1.
   assert (Hn : Qabs x + Qabs y + Qabs z == 1).
   { rewrite (Qabs_pos x), (Qabs_pos y), (Qabs_pos z) by assumption. exact Hs. }
-  cbn. rewrite Hn. repeat split; field.
+  eapply veq_trans; [apply vec_red_veq|]. cbn. rewrite Hn. repeat split; field.
 Qed.
 Lemma normalize_adm x y z : adm_lim (x, y, z) ->
   on_boundary (normalize (x, y, z)) /\ veq (vscale (x + y + z) (normalize (x, y, z))) (x, y, z).
@@ -319,7 +324,7 @@ Proof.
   intros (Hx & Hy & Hz & Hs & Zr). unfold normalize, norm1.
   assert (Hn : Qabs x + Qabs y + Qabs z == x + y + z).
   { rewrite (Qabs_pos x), (Qabs_pos y), (Qabs_pos z) by assumption. reflexivity. }
-  unfold on_boundary, on_simplex, has_zero. cbn. rewrite Hn.
+  unfold on_boundary, on_simplex, has_zero, vec_red, vscale, veq. rewrite !Qred_correct, Hn.
   set (n := x + y + z) in *. assert (Hi : 0 < / n) by (apply Qinv_lt_0_compat; auto).
   unfold Qdiv. repeat split.
   - apply Qmult_le_0_compat; lra.
@@ -351,7 +356,7 @@ Qed.
 
 (* the unnormalised intersection point in each of the six cases of the search loop: with m the larger
    non-zero coordinate of L and d = 1/(3m-1) its components are a permutation of (m d, 0, (2m-1) d) *)
-Ltac lp_solve Z H := cbn; repeat split; rewrite ?Z, ?H; field; lra.
+Ltac lp_solve Z H := unfold line_plane, vec_red, vadd, vscale, vsub, vdot, veq, centre, vO, vX, vY, vZ; rewrite !Qred_correct; repeat split; rewrite ?Z, ?H; field; lra.
 Lemma lp_a0_Y a b c : a == 0 -> c == 1 - b -> 1 # 2 <= b ->
   veq (line_plane vY vO (vsub centre (a, b, c)) (a, b, c)) (b * / (3 * b - 1), 0, (2 * b - 1) * / (3 * b - 1)).
 Proof. intros Z H Hm. lp_solve Z H. Qed.
@@ -422,6 +427,13 @@ Proof.
     with (t * (a + b + c) + (1 - t) * (x + y + z)) by ring. rewrite S1, S2. ring.
 Qed.
 
+Lemma veq_sym u v : veq u v -> veq v u.
+Proof. destruct u as [[a b] c], v as [[x y] z]. cbn. intros (A & B & C). repeat split; symmetry; auto. Qed.
+Lemma on_simplex_veq u v : veq u v -> on_simplex u -> on_simplex v.
+Proof. destruct u as [[a b] c], v as [[x y] z]. cbn. intros (A & B & C) (P1 & P2 & P3 & P4). repeat split; lra. Qed.
+Lemma on_simplex_red v : on_simplex v -> on_simplex (vec_red v).
+Proof. apply on_simplex_veq, veq_sym, vec_red_veq. Qed.
+
 (* the ratio lies on the segment centre -> lim (pos >= 0) or centre -> neg_lim (pos < 0) at parameter |pos|,
    neg_lim being the second intersection of the line lim-centre with the boundary of the triangle *)
 Theorem ratio_spec L pos : on_boundary L -> -(1) <= pos <= 1 ->
@@ -433,16 +445,17 @@ Proof.
   intros HL [P0 P1]. unfold ratio. destruct (Qle_bool 0 pos) eqn:E.
   - apply Qle_bool_imp_le in E. eexists. split; [reflexivity|].
     pose proof (Qabs_pos pos E) as Hq. set (q := Qabs pos) in *. split; [|split].
-    + apply convex_simplex; [lra|apply HL|apply on_simplex_centre].
-    + intros _. destruct L as [[a b] c]. cbn. repeat split; rewrite Hq; ring.
+    + apply on_simplex_red, convex_simplex; [lra|apply HL|apply on_simplex_centre].
+    + intros _. eapply veq_trans; [apply vec_red_veq|]. destruct L as [[a b] c]. cbn. repeat split; rewrite Hq; ring.
     + intros K. lra.
   - assert (Hneg : pos < 0). { apply Qnot_le_lt. intros K. apply Qle_bool_iff in K. congruence. }
     destruct L as [[a b] c]. destruct (neg_lim_spec a b c HL) as (N & EN & BN & CN). rewrite EN.
     eexists. split; [reflexivity|].
     assert (Hq : Qabs pos == - pos) by (apply Qabs_neg; lra). set (q := Qabs pos) in *. split; [|split].
-    + apply convex_simplex; [lra|apply BN|apply on_simplex_centre].
+    + apply on_simplex_red, convex_simplex; [lra|apply BN|apply on_simplex_centre].
     + intros K. lra.
-    + intros _. exists N. repeat split; auto; try apply BN. destruct N as [[x y] z]. cbn. repeat split; rewrite Hq; ring.
+    + intros _. exists N. repeat split; auto; try apply BN. eapply veq_trans; [apply vec_red_veq|].
+      destruct N as [[x y] z]. cbn. repeat split; rewrite Hq; ring.
 Qed.
 
 Theorem slice_spec lim pos p : adm_lim lim -> -(1) <= pos <= 1 -> 0 <= p <= 1 ->
@@ -466,7 +479,7 @@ Theorem slice_pos0_is_depolarizing lim p : exists d, slice lim 0 p = Some d /\ d
 Proof.
   unfold slice, ratio. change (Qle_bool 0 0) with true. cbv iota. change (Qabs 0) with 0.
   destruct (normalize lim) as [[a b] c]. cbn. eexists. split; [reflexivity|].
-  unfold deq, depolarizing, of_xyz; cbn. repeat split; field.
+  unfold deq, depolarizing, of_xyz; cbn. rewrite !Qred_correct. repeat split; field.
 Qed.
 Theorem slice_unit_lim_x c p : 0 < c -> exists d, slice (c, 0, 0) 1 p = Some d /\ deq d (bit_flip p).
 Proof.
@@ -474,7 +487,7 @@ Proof.
   { unfold norm1. change (Qabs 0) with 0. rewrite (Qabs_pos c) by lra. ring. }
   unfold slice, ratio, normalize. remember (norm1 (c, 0, 0)) as n eqn:En. clear En.
   change (Qle_bool 0 1) with true. cbv iota. change (Qabs 1) with 1. cbn. eexists. split; [reflexivity|].
-  unfold deq, bit_flip, of_xyz; cbn. repeat split; rewrite ?Hn; field; lra.
+  unfold deq, bit_flip, of_xyz; cbn. rewrite !Qred_correct. repeat split; rewrite ?Hn; field; lra.
 Qed.
 Theorem slice_unit_lim_y c p : 0 < c -> exists d, slice (0, c, 0) 1 p = Some d /\ deq d (bit_phase_flip p).
 Proof.
@@ -482,7 +495,7 @@ Proof.
   { unfold norm1. change (Qabs 0) with 0. rewrite (Qabs_pos c) by lra. ring. }
   unfold slice, ratio, normalize. remember (norm1 (0, c, 0)) as n eqn:En. clear En.
   change (Qle_bool 0 1) with true. cbv iota. change (Qabs 1) with 1. cbn. eexists. split; [reflexivity|].
-  unfold deq, bit_phase_flip, of_xyz; cbn. repeat split; rewrite ?Hn; field; lra.
+  unfold deq, bit_phase_flip, of_xyz; cbn. rewrite !Qred_correct. repeat split; rewrite ?Hn; field; lra.
 Qed.
 Theorem slice_unit_lim_z c p : 0 < c -> exists d, slice (0, 0, c) 1 p = Some d /\ deq d (phase_flip p).
 Proof.
@@ -490,7 +503,7 @@ Proof.
   { unfold norm1. change (Qabs 0) with 0. rewrite (Qabs_pos c) by lra. ring. }
   unfold slice, ratio, normalize. remember (norm1 (0, 0, c)) as n eqn:En. clear En.
   change (Qle_bool 0 1) with true. cbv iota. change (Qabs 1) with 1. cbn. eexists. split; [reflexivity|].
-  unfold deq, phase_flip, of_xyz; cbn. repeat split; rewrite ?Hn; field; lra.
+  unfold deq, phase_flip, of_xyz; cbn. rewrite !Qred_correct. repeat split; rewrite ?Hn; field; lra.
 Qed.
 
 (* --- constructor domains --- *)
@@ -591,7 +604,6 @@ Qed.
 Definition dist_red (d : dist) : dist := mkD (Qred (dI d)) (Qred (dX d)) (Qred (dY d)) (Qred (dZ d)).
 Lemma dist_red_deq d : deq (dist_red d) d.
 Proof. unfold deq, dist_red; cbn. repeat split; apply Qred_correct. Qed.
-Definition vec_red (v : vec3) : vec3 := let '(x, y, z) := v in (Qred x, Qred y, Qred z).
 
 (* ------------------------------------------------------------------ *)
 (* verified checkers used by the tie: the implementation's floats, converted exactly to Q,
